@@ -9,7 +9,7 @@ static bool cls_serves(const std::string &cls, const CfgEntry &e, const std::str
     if (prop == "C01" || prop == "C02") return cls == "pgm";
     if (prop == "C07") return cls == "pgm" && e.epsrec > 0;
     if (prop == "C03") return cls == "seg";
-    if (prop == "C04") return cls == "seg" && !e.floating_key;
+    if (prop == "C04") return (cls == "seg" || cls == "pgm") && !e.floating_key;
     if (prop == "C08") return cls == "comp";
     if (prop == "C09") return cls == "buck";
     if (prop == "C10") return cls == "ef";
